@@ -9,7 +9,7 @@ RULE = ("inputs: (i) random Unicode strings <= 64 chars biased to the lexer's ch
         "braces, °', multi-byte letters, every kind of Unicode whitespace); (ii) token soups <= 40 tokens from the real vocabulary (numbers "
         "with exponents <= 3 digits, unit words, fact words, function names, `to`, punctuation); (iii) mutations (delete/duplicate/swap/"
         "splice) of every query in tests/ and the README; (iv) mostly well-formed structured queries (quantities, functions incl. round(x,n), facts, "
-        "powers, casts), 40% of them mutated. Bounds as the property states: a token after ^ or ** (and the digits argument of "
+        "powers, casts), 40% of them mutated; (v) long operator-free phrases (<= 40 words, 100-300 bytes, multi-byte characters at arbitrary byte offsets). Bounds as the property states: a token after ^ or ** (and the digits argument of "
         "round) is an integer literal of <= 2 digits and the product of all power magnitudes in one input is <= 100. Each input is run "
         "through parse+query in the debug-assertion and the release build; refuted by: a panic, abort or signal, no result sequence, an "
         "error whose range is not start<=end<=len on char boundaries or that codespan-reporting cannot render, a value that cannot be "
@@ -98,6 +98,33 @@ def gen_soup(rng, vocab):
             toks.append(rng.choice(PUNCT))
     seps = ["", " ", " ", " ", "  ", "\t"]
     return "".join(t + rng.choice(seps) for t in toks)
+
+def gen_phrase(rng, vocab):
+    """A long operator-free run of words (<= 40 tokens): one SENTENCE node of 100-300 bytes, mostly unknown to the database, with
+    multi-byte characters (°, non-ASCII blanks) at arbitrary byte offsets - length limits and truncations counted in bytes show
+    here (seed C11-d). Sometimes followed by an operator and a well-formed tail."""
+    n = rng.randint(8, 40)
+    w = rng.choice([None, None, rng.choice(["xylo", "ab", "population", "q", "zzzzzzzz"])])
+    seps = [" ", " ", " ", "  ", "\u00a0", "\u3000", "\u2003", " \u00a0"]
+    out = []
+    for i in range(n):
+        r = rng.random()
+        if w and r < 0.7:
+            t = w
+        elif r < 0.8:
+            t = rng.choice(vocab["facts"])
+        elif r < 0.88:
+            t = rng.choice(["°C", "°F", "°", "x°", "°x", "''", "a'b"])
+        elif r < 0.93:
+            t = str(rng.randint(0, 99))
+        else:
+            t = "".join(rng.choice("abcdefghijklmnopqrstuvwxyz") for _ in range(rng.randint(1, 9)))
+        out.append(t)
+        out.append(rng.choice(seps))
+    s = "".join(out).strip(" ")
+    if rng.random() < 0.3:
+        s += rng.choice([" * 2", " + 1 m", " to m", " / (1 + 1)", ")", " ^ 2"])
+    return s
 
 def mutate(rng, s):
     toks = re.findall(r"\s+|[A-Za-z°']+|[0-9.]+(?:[eE][+-]?[0-9]+)?|.", s, re.S)
@@ -226,7 +253,9 @@ def shard(p):
     inputs = []
     for _ in range(p["n"]):
         r = rng.random()
-        if r < 0.25:
+        if r < 0.06:
+            inputs.append(("phrase", gen_phrase(rng, vocab)))
+        elif r < 0.25:
             inputs.append(("unicode", gen_unicode(rng)))
         elif r < 0.5:
             inputs.append(("soup", gen_soup(rng, vocab)))
